@@ -694,7 +694,8 @@ def fixed_table_layout(box):
                 else:
                     width -= column_widths[j]
             if columns_without_width:
-                width_per_column = width / len(columns_without_width)
+                # Columns that already have a width can be wider than the cell.
+                width_per_column = max(0, width) / len(columns_without_width)
                 for j in columns_without_width:
                     column_widths[j] = width_per_column
         i += cell.colspan
